@@ -648,7 +648,24 @@ var c26LastResp reflect.Value
 
 var c26Mode = "w"
 
+// The shape on the op line says which names exist (x1 = one of the seeded swamps).  An earlier request of a long case may have
+// emptied — and thereby auto-destroyed — a seeded swamp: it is put back, and its baseline snapshot renewed, before the next
+// request is sent, so that the feature the model was given is true of the server.
+func c26EnsureSeeded(st *c26State) {
+	for _, nm := range c26Seeded {
+		r, err := st.rig.GW.IsSwampExist(context.Background(), &hydrapb.IsSwampExistRequest{IslandID: c26Island, SwampName: nm})
+		if err == nil && r != nil && r.GetIsExist() {
+			continue
+		}
+		if c26SeedSwamp(st, nm) == nil {
+			c26Close(st, nm)
+			st.base[nm] = c26Snapshot(st, nm)
+		}
+	}
+}
+
 func c26Do(st *c26State, rpc c26Rpc, msg proto.Message) string {
+	c26EnsureSeeded(st)
 	touched := map[string]bool{}
 	for _, s := range c26Seeded {
 		touched[s] = true
@@ -1445,6 +1462,10 @@ func c26EntryShape(m protoreflect.Message, mode string) string {
 				exist = true
 			}
 		}
+	}
+	// the seeded swamps live on island c26Island: the same name on another island (an entry built without its IslandID) does not exist
+	if fd := get("IslandID"); fd != nil && m.Get(fd).Uint() != c26Island {
+		exist = false
 	}
 	keys := "O"
 	if fd := get("Keys"); fd != nil && fd.IsList() {
